@@ -23,6 +23,18 @@ open('filter.go','w').write(s)
 s=open('options.go').read()
 s=s.replace('\topts := getDefaultOptions()\n\tfor _, o := range opt {\n\t\tif o != nil {\n\t\t\to(&opts)\n\t\t}\n\t}\n\treturn opts','\topts := getDefaultOptions()\n\tfor i := 0; i < len(opt); i++ {\n\t\tif opt[i] == nil {\n\t\t\tcontinue\n\t\t}\n\t\topt[i](&opts)\n\t}\n\treturn opts')
 open('options.go','w').write(s)
+# 3. presentation-only edits: Execute adds context to the element's error; the
+#    parser engine de-duplicates its error list
+#    with a different (equivalent) loop; a helper is inlined
+s=open('filter.go').read()
+s=s.replace('\t\t\tresult, err := f.evaluator.Evaluate(item.Interface())\n\t\t\tif err != nil {\n\t\t\t\treturn nil, err\n\t\t\t}\n\n\t\t\tif result {\n\t\t\t\tfiltered = reflect.Append','\t\t\tresult, err := f.evaluator.Evaluate(item.Interface())\n\t\t\tif err != nil {\n\t\t\t\treturn nil, fmt.Errorf("element %d: %w", i, err)\n\t\t\t}\n\n\t\t\tif result {\n\t\t\t\tfiltered = reflect.Append')
+assert 'element %d' in s
+open('filter.go','w').write(s)
+s=open('grammar/grammar.go').read()
+s=s.replace('\tvar cleaned []error\n\tset := make(map[string]bool)\n\tfor _, err := range *e {\n\t\tif msg := err.Error(); !set[msg] {\n\t\t\tset[msg] = true\n\t\t\tcleaned = append(cleaned, err)\n\t\t}\n\t}\n\t*e = cleaned','\tcleaned := make([]error, 0, len(*e))\n\tseen := map[string]struct{}{}\n\tfor i := 0; i < len(*e); i++ {\n\t\tmsg := (*e)[i].Error()\n\t\tif _, dup := seen[msg]; dup {\n\t\t\tcontinue\n\t\t}\n\t\tseen[msg] = struct{}{}\n\t\tcleaned = append(cleaned, (*e)[i])\n\t}\n\t*e = cleaned')
+assert 'dup := seen[msg]' in s
+s=s.replace('func (p *parser) restore(pt savepoint) {\n\tif pt.offset == p.pt.offset {\n\t\treturn\n\t}\n\tp.pt = pt\n}','func (p *parser) restore(pt savepoint) {\n\tif pt.offset != p.pt.offset {\n\t\tp.pt = pt\n\t}\n}')
+open('grammar/grammar.go','w').write(s)
 PY
 gofmt -l . ; go build ./... && go test -vet=off -count=1 ./... >/dev/null 2>&1 && echo "controls build and pass the suite" || { echo "controls broke the build"; exit 2; }
 git diff --stat | tail -1
